@@ -19,7 +19,8 @@ FAMS = ['v4u', 'v6u']
 
 
 class SystemWorld(PeerWorld):
-    def __init__(self, configured: dict, rate_limit: bool, tail: str = '', no_adj_rib_out: bool = False, **kw) -> None:
+    def __init__(self, configured: dict, rate_limit: bool, tail: str = '', no_adj_rib_out: bool = False, keys=None, **kw) -> None:
+        self.KS = list(keys or KS)
         static = ''
         if configured:
             routes = []
@@ -34,11 +35,11 @@ class SystemWorld(PeerWorld):
         self.namer = RibWorld(conf=self.conf, neighbor=self.neighbor, fresh_rib=False)
         self.sys: list[dict] = []
         self.seen = 0
-        self.slog('Begin', cache=self.cache(), cfg={k: configured.get(k, 'none') for k in KS})
+        self.slog('Begin', cache=self.cache(), cfg={k: configured.get(k, 'none') for k in self.KS})
 
     def cache(self) -> dict:
         c = self.namer.cache_table()
-        return {k: c[k] for k in KS}
+        return {k: c[k] for k in self.KS}
 
     def slog(self, e: str, **kw) -> None:
         d = dict(FIELDS)
@@ -180,14 +181,15 @@ def run_one(steps, tid, configured, rate_limit, nocache=False):
     return w.sys
 
 
-def judge(lines, label):
+def judge(lines, label, keys=('k1', 'k2', 'k3'), fams=('v4u', 'v6u')):
     path = os.path.join(tlc.WORK, f'sys-{label}.ndjson')
     os.makedirs(tlc.WORK, exist_ok=True)
     with open(path, 'w') as f:
         for ln in lines:
             f.write(json.dumps(ln) + '\n')
     cfg = os.path.join(tlc.WORK, f'sys-{label}.cfg')
-    open(cfg, 'w').write('SPECIFICATION ObsSpec\nCONSTANTS\n  Keys = {"k1", "k2", "k3"}\n  Fams = {"v4u", "v6u"}\nINVARIANT Report\nCHECK_DEADLOCK FALSE\n')
+    q = lambda xs: ', '.join('"%s"' % x for x in xs)   # noqa: E731
+    open(cfg, 'w').write('SPECIFICATION ObsSpec\nCONSTANTS\n  Keys = {%s}\n  Fams = {%s}\nINVARIANT Report\nCHECK_DEADLOCK FALSE\n' % (q(keys), q(fams)))
     res = tlc.run('Obs_ExaSystem', cfg, f'sys-{label}', workers=1, env={'TRACE_FILE': path})
     verdict = [v for v in res.printed() if v[1] == 'verdict']
     try:
